@@ -296,3 +296,23 @@ def c11_6(ctx):
         ctx.fail(u, u.node, 'the y columns are not normalised with as_tuple (ycols * len(self) must repeat a tuple)')
     if not any(isinstance(s, ast.Assign) and U(s.targets[0]) == 'xcols' and N(s.value) == 'as_list(x)' for s in u.body):
         ctx.fail(u, u.node, 'the x columns are not as_list(x)')
+
+
+@obligation('C11.7', 'MATCH argument roles', '_dict:Dict.do (used by dictable.ungroup to wrap the key cells)',
+            'ungroup extends every sub-table by its key cells with row.do(lambda v: [v]): do calls f(value, **other entries named by f\'s FURTHER parameters) - the first parameter is the value itself and must not also be looked up by name among the keys (a key column called like it would be passed twice)',
+            axioms=())
+def c11_7(ctx):
+    f = ctx.repo.fn('_dict:Dict.do')
+    ctx.count(1, f.where())
+    comp = [d for d in ast.walk(f.node) if isinstance(d, ast.DictComp) and N(d.generators[0].iter) == 'res.items()']
+    if not comp:
+        ctx.fail(f, f.node, 'Dict.do no longer passes the other entries by name')
+        return
+    g = comp[0].generators[0]
+    k = U(g.target.elts[0]) if isinstance(g.target, ast.Tuple) else '?'
+    if len(g.ifs) != 1 or N(g.ifs[0]) != NS('%s in args[1:]' % k):
+        ctx.fail(f, comp[0], 'entries are passed by name when `%s`, expected `%s in args[1:]` (every parameter of f but the first, which receives the value)' % (U(g.ifs[0]) if g.ifs else 'always', k),
+                 witness="dictable(v=[1, 1], x=[2, 3]).groupby('v').ungroup()")
+    calls = [c_ for c_ in ast.walk(f.node) if isinstance(c_, ast.Call) and any(kw_.arg is None and kw_.value is comp[0] for kw_ in c_.keywords)]
+    if not calls or [U(a) for a in calls[0].args] != ['res[key]']:
+        ctx.fail(f, comp[0], 'the function is not applied to the current value res[key] first')
